@@ -127,10 +127,66 @@ func (in *Interp) quoteIf(verb byte, s Str) Str {
 	if s.IsConcrete() {
 		return Str{S: strconv.Quote(s.S)}
 	}
-	// Over-approximation: symbolic bytes are kept verbatim between quotes.
-	// (strconv.Quote would escape control and non-printable characters; a
-	// path that depends on that is validated by the native replay.)
-	return concatStr(concatStr(Str{S: `"`}, s), Str{S: `"`})
+	return in.symQuote(s)
+}
+
+// symQuote is strconv.Quote for strings with symbolic bytes, exact for
+// ASCII; a symbolic byte >= 0x80 is outside what it models.
+func (in *Interp) symQuote(s Str) Str {
+	tb := in.tb
+	out := Str{S: `"`}
+	c8 := func(v uint64) *Term { return tb.Const(SoBV8, v) }
+	const hex = "0123456789abcdef"
+	for i := 0; i < len(s.S); i++ {
+		b := strByte(s, i)
+		if b.T == nil {
+			if b.V >= 0x80 {
+				// concrete non-ASCII: quote the maximal concrete run natively
+				j := i
+				for j < len(s.S) && (s.Sym == nil || s.Sym[j] == nil) {
+					j++
+				}
+				q := strconv.Quote(s.S[i:j])
+				out = concatStr(out, Str{S: q[1 : len(q)-1]})
+				i = j - 1
+				continue
+			}
+			q := strconv.Quote(string(rune(b.V)))
+			out = concatStr(out, Str{S: q[1 : len(q)-1]})
+			continue
+		}
+		t := b.T
+		if in.ex.Branch(tb.Bin(OpBvUle, c8(0x80), t)) {
+			in.unsupported("%q / strconv.Quote of a symbolic non-ASCII byte")
+		}
+		if in.ex.Branch(tb.Or(tb.Eq(t, c8('"')), tb.Eq(t, c8('\\')))) {
+			out = concatStr(out, Str{S: "\\"})
+			out = concatStr(out, Str{S: "?", Sym: []*Term{t}})
+			continue
+		}
+		if in.ex.Branch(tb.And(tb.Bin(OpBvUle, c8(0x20), t), tb.Bin(OpBvUle, t, c8(0x7e)))) {
+			out = concatStr(out, Str{S: "?", Sym: []*Term{t}})
+			continue
+		}
+		// control characters: named escapes or \xNN
+		named := false
+		for _, e := range []struct {
+			c byte
+			s string
+		}{{'\a', `\a`}, {'\b', `\b`}, {'\f', `\f`}, {'\n', `\n`}, {'\r', `\r`}, {'\t', `\t`}, {'\v', `\v`}} {
+			if in.ex.Branch(tb.Eq(t, c8(uint64(e.c)))) {
+				out = concatStr(out, Str{S: e.s})
+				named = true
+				break
+			}
+		}
+		if named {
+			continue
+		}
+		v := byte(in.ex.Concretize(t))
+		out = concatStr(out, Str{S: `\x` + string(hex[v>>4]) + string(hex[v&0xf])})
+	}
+	return concatStr(out, Str{S: `"`})
 }
 
 // symDecimal renders a symbolic integer: the value is concretised (harnesses
